@@ -10,7 +10,7 @@ From Coq Require Import List Arith Bool Lia.
 Import ListNotations.
 From TP Require Import Global.Threads Global.ThreadsProofs Global.SharedName Global.SharedNameProofs
      Gen.SharedAccess Global.Cache Global.CacheProofs Global.Compose Global.ComposeProofs
-     Global.ClassModel Global.ClassModelProofs.
+     Global.ClassModel Global.ClassModelProofs Global.Toggle Global.ToggleProofs.
 
 (* The full statement, for the validators of the generated table: whatever the schedule, every
    thread validating the same field of the same class reads - hence returns - what it does alone.
@@ -109,6 +109,22 @@ Theorem C20_class_safe_all_schedules : forall es m0 tr i,
     class_safe_b es = true -> interleave (class_threads es) tr -> i < 3 ->
     obs_in m0 tr i = obs_seq m0 (nth i (class_threads es) []).
 Proof. exact class_safe_all_schedules. Qed.
+
+(* ---- save; write; use; restore on a shared name (a non-atomic toggle, Global/Toggle.v) ---- *)
+
+(* FIFO overlap of two such threads (two pre-emptions: the thread that entered first leaves first): the schedule
+   is an interleaving, the second thread USES the value the cell had before either of them, and whenever that
+   differs from the value it installed, this is what it uses in NO run alone, from any memory *)
+Theorem C20_toggle_fifo_witness : forall c v m0,
+    interleave [toggle c v; toggle c v] (fifo_trace c v) /\
+    used (obs_in m0 (fifo_trace c v) 1) = m0 c /\
+    (m0 c <> v -> forall m, used (obs_in m0 (fifo_trace c v) 1) <> used (obs_seq m (toggle c v))).
+Proof. exact toggle_fifo_witness. Qed.
+
+(* the nested (LIFO) overlap, also two pre-emptions, is harmless: why single pre-emptions never show it *)
+Theorem C20_toggle_lifo_harmless : forall c v m0,
+    used (obs_in m0 (lifo_trace c v) 0) = v /\ used (obs_in m0 (lifo_trace c v) 1) = v.
+Proof. exact toggle_lifo_harmless. Qed.
 
 (* ---- caches shared by all threads (Global/Cache.v; protocols generated into Gen/CacheAccess.v) ---- *)
 
@@ -235,6 +251,8 @@ Print Assumptions C20_compose_safe.
 Print Assumptions C20_shift_invariant.
 Print Assumptions C20_composed_all_schedules.
 Print Assumptions C20_class_safe_all_schedules.
+Print Assumptions C20_toggle_fifo_witness.
+Print Assumptions C20_toggle_lifo_harmless.
 Print Assumptions C20_cache_final_safe.
 Print Assumptions C20_cache_insert_only_safe.
 Print Assumptions C20_cache_removal_witness.
